@@ -316,8 +316,9 @@ def ordering(chk, prog):
     for fn in (TREE + "ConfigNode::get_hosts", TREE + "ConfigNode::get_routes"):
         b = prog.bodies.get(fn)
         if b:
-            its = [core.describe(prog, b, t["args"][0]) for blk, t in b.calls_to(r"IntoIterator::into_iter$")]
-            chk.ob("R3.order", fn, "children are visited in stored (file) order", bool(its) and not b.calls_to(r"::(rev|sort|sort_unstable)$"), "")
+            its = [core.describe(prog, b, t["args"][0]) for blk, t in b.calls_to(r"IntoIterator::into_iter$|IntoIterator>::into_iter$|slice::<impl \[T\]>::iter$|Vec::<T, A>::iter$")]
+            chk.ob("R3.order", fn, "children are visited in stored (file) order",
+                   bool(its) and not b.calls_to(r"::(rev|sort|sort_by|sort_by_key|sort_unstable|sort_unstable_by|sort_unstable_by_key|rfold|rfind|next_back|reverse)$"), "")
     ps = prog.bodies.get(TREE + "parse_section")
     if ps:
         pushes = [t["callee"].split("::")[-1] for blk, t in ps.calls_to(r"Vec::<T, A>::(push|insert|sort|reverse|swap|retain)$|Extend<.*>>::extend$")]
